@@ -1,2 +1,3 @@
 import SmppVerif.Model.Driver
 import SmppVerif.Props.C10
+import SmppVerif.Props.C11
